@@ -16,6 +16,16 @@ def gen(rng, n, tier):
             off = Fr(2) ** rng.choice([20, 23, 30]) * rng.choice([1, -1])
             hd = sx.rec(h); hd["bins"] = [[[a + off, b + off] for a, b in ax] for ax in hd["bins"]]
             h = [[k, v] for k, v in hd.items()]
+        if rng.random() < 0.1:
+            # fixed-width bins with a decimal width (0.1, 0.3, 0.7 ...): the merged bins must reuse the old edges bit for bit,
+            # recomputing them from a merged width differs in the last place.  The case records the edges physt computes.
+            from physt.binnings import FixedWidthBinning
+            w = rng.choice([0.1, 0.3, 0.7, 0.05, 0.6]); nb = rng.randint(4, 14); start = round(rng.randint(-30, 30) * w, 10)
+            fb = FixedWidthBinning(bin_width=w, bin_count=nb, min=start)
+            hd = sx.rec(C.gen_hist(rng, ndim=1, maxbins=nb, minbins=nb, gapped=0.0, weights=rng.choice(["int", "float"])))
+            hd["bins"] = [[[Fr(float(a)), Fr(float(b))] for a, b in fb.bins]]; hd["kinds"] = ["fixed"]; hd["incl"] = [False]
+            hd["fixed_args"] = [[Fr(w), nb, Fr(start)]]
+            h = [[k, v] for k, v in hd.items()]
         setter = "F"
         if sx.rec(h)["dtype"] == "int64" and rng.random() < 0.3:      # fractional squared errors put on integer contents through the errors2 setter
             hd = sx.rec(h); hd["err2"] = [Fr(rng.randint(0, 40), 8) for _ in hd["err2"]]; setter = "T"
